@@ -974,6 +974,84 @@ func runC01(w *fw.W) {
 		}
 		finish(b)
 	}
+	// CLI with modules: one-liners (no source path) and script files making sequences of relative import / invite! calls
+	nmod := w.Pick(6, 40)
+	for k := 0; k < nmod; k++ {
+		if !w.Take() {
+			continue
+		}
+		w.Begin(fmt.Sprintf("cli modules batch %d", k), map[string]any{"batch": k})
+		b := newBatch()
+		if cli == "" {
+			w.End(fw.Result{Verdict: fw.Inconclusive, Reason: "cli-binary-not-built"})
+			continue
+		}
+		rng := w.Rand()
+		dir, _ := os.MkdirTemp(os.Getenv("VERIF_TMP"), "c01-mods-*")
+		os.MkdirAll(dir+"/sub", 0o755)
+		for name, body := range map[string]string{
+			"a.pangaea": "{f: {|x| x * 2}, v: 1}", "b.pangaea": "bv := 2\nbf := {|x| [x, bv]}", "bad.pangaea": "1 +* (", "boom.pangaea": "pre := 1\nraise ValueErr.new(\"boom\")",
+			"empty.pangaea": "", "nested.pangaea": "inner := import(\"./sub/c\")\n{got: inner}", "sub/c.pangaea": "invite!(\"../b\")\n{c: bv}", "self.pangaea": "d := 1\n{d: d}",
+		} {
+			os.WriteFile(dir+"/"+name, []byte(body), 0o644)
+		}
+		calls := []string{`import("./a")`, `invite!("./b")`, `import("./bad")`, `invite!("./bad")`, `import("./boom")`, `invite!("./boom")`, `import("./missing")`, `invite!("./missing")`,
+			`import("./empty")`, `invite!("./empty")`, `import("./nested")`, `invite!("./sub/c")`, `import("a")`, `invite!("")`, `import("./")`, `invite!("./self")`, `import(nil)`, `invite!(1)`, `import("./sub/../a")`}
+		for i := 0; i < 8; i++ {
+			var stmts []string
+			for j, n := 0, 2+rng.Intn(3); j < n; j++ {
+				c := calls[rng.Intn(len(calls))]
+				switch rng.Intn(5) {
+				case 3:
+					// at the top level itself (an error ends the program there)
+					stmts = append(stmts, c)
+				case 4:
+					stmts = append(stmts, fmt.Sprintf("y%d := %s", j, c))
+				case 0:
+					stmts = append(stmts, fmt.Sprintf("nil.try.{|u| %s}.A.p", c))
+				case 1:
+					stmts = append(stmts, fmt.Sprintf("nil.try.{|u| %s}.val.p", c))
+				default:
+					stmts = append(stmts, fmt.Sprintf("x%d := nil.try.{|u| %s}", j, c))
+				}
+			}
+			full := strings.Join(stmts, "; ")
+			w.Note(full)
+			var cmd *exec.Cmd
+			how := "one-liner"
+			if i%4 == 3 {
+				how = "script"
+				os.WriteFile(dir+"/main.pangaea", []byte(strings.Join(stmts, "\n")), 0o644)
+				cmd = exec.Command("timeout", "-s", "KILL", "10", cli, "main.pangaea")
+			} else {
+				cmd = exec.Command("timeout", "-s", "KILL", "10", cli, "-e", full)
+			}
+			cmd.Dir = dir
+			cmd.Stdin = strings.NewReader("")
+			var stderr, stdout bytes.Buffer
+			cmd.Stderr, cmd.Stdout = &stderr, &stdout
+			err := cmd.Run()
+			b.n++
+			b.counters["cli_module_runs"]++
+			code := 0
+			if ee, ok := err.(*exec.ExitError); ok {
+				code = ee.ExitCode()
+			}
+			se := stderr.String()
+			switch {
+			case code == 137 || code == -1:
+				b.inc["cli-timeout"]++
+			case strings.Contains(se, "stack overflow") || strings.Contains(se, "goroutine stack exceeds"):
+				b.inc["recursion-proviso"]++
+			case (code != 0 && code != 1) || strings.Contains(se, "panic:") || strings.Contains(se, "fatal error:") || strings.Contains(se, "goroutine "):
+				msg := firstMatch(se, "panic:", "fatal error:")
+				b.vs.add("C01|cli-modules|"+panicClass(msg), fmt.Sprintf("%s in a directory with modules, exit=%d\n%s\nprogram:\n%s", how, code, truncateMid(se, 800), full), map[string]any{"source": full})
+			}
+			b.dk[fmt.Sprintf("cli-modules|%s|exit%d", how, code)] = struct{}{}
+		}
+		os.RemoveAll(dir)
+		finish(b)
+	}
 }
 
 func firstMatch(s string, subs ...string) string {
